@@ -257,6 +257,7 @@ never_direct allow p_nd
 dns_timeout 1 seconds
 connect_timeout 5 seconds
 cachemgr_passwd s3cret info
+email_err_data on
 ftp_passive on
 ftp_epsv off
 http_access deny p_deny
